@@ -286,9 +286,11 @@ class LineSearchStepSize(PGMStepSize):
             fquad = self.pgm.f_quad_approx(z, v, L)
             if fz <= fquad:
                 break
-            else:
-                L *= self.gamma_u
             it += 1
+            # Only increase L if another candidate will be tried, so that the
+            # returned value is always one for which the candidate was computed.
+            if it < self.maxiter:
+                L *= self.gamma_u
         return L
 
 
@@ -359,9 +361,11 @@ class RobustLineSearchStepSize(LineSearchStepSize):
             fquad = self.pgm.f_quad_approx(z, y, L)
             if fz <= fquad:
                 break
-            else:
-                L *= self.gamma_u
             it += 1
+            # Only increase L if another candidate will be tried, so that the
+            # returned value is always one for which the candidate was computed.
+            if it < self.maxiter:
+                L *= self.gamma_u
         self.Tk = T
         self.Zrb += t * L * (z - y)
         self.Z = z
